@@ -48,6 +48,7 @@ fn on_big_stack<T: Send + 'static>(f: impl FnOnce() -> T + Send + 'static) -> T 
 pub fn worker_main(check: &'static dyn DynCheck, seed: u64, tier: Tier, start: u64, stride: u64, end: u64) {
     crate::exec::install_panic_hook();
     on_big_stack(move || {
+        crate::exec::pin_clock_default();
         let stdout = std::io::stdout();
         let mut agg = Agg::default();
         let mut since_flush = 0u32;
@@ -90,6 +91,7 @@ pub fn worker_main(check: &'static dyn DynCheck, seed: u64, tier: Tier, start: u
 pub fn server_main(check: &'static dyn DynCheck) {
     crate::exec::install_panic_hook();
     on_big_stack(move || {
+        crate::exec::pin_clock_default();
         let stdin = std::io::stdin();
         let stdout = std::io::stdout();
         for line in stdin.lock().lines() {
@@ -1058,6 +1060,7 @@ fn spawn_worker_digest(wid: usize, id: &str, seed: u64, tier: Tier, start: u64, 
 pub fn digest_worker_main(check: &'static dyn DynCheck, seed: u64, tier: Tier, start: u64, stride: u64, end: u64) {
     crate::exec::install_panic_hook();
     on_big_stack(move || {
+        crate::exec::pin_clock_default();
         let stdout = std::io::stdout();
         let mut idx = start;
         while idx < end {
